@@ -188,7 +188,7 @@ def run(ck):
                "terminated False, truncated exactly from the maximum on, tick counter, one history item per agent, info covers every agent; after every "
                "reset: tick 0, empty histories, zero total; the whole trace is compared with Model.Episode")
     coq_props(ck)
-    gen_tie.check(ck, ["episode"])
+    gen_tie.check(ck, ["episode", "schedule"])
     coq_in = []
     scen = [("family/%d" % (ck.seed + k), family.generate(ck.seed + k, force_off=(k % 3 == 2))) for k in range(ck.n(12, 40))]
     scen.append(("pkg/data_manipulation.yaml", world.load_cfg(world.PKG + "/data_manipulation.yaml")))
